@@ -108,20 +108,21 @@ def _is_ds(node) -> bool:
 
 
 def apply_container(mc, op):
-    """One container-level operation.  Path arguments are strings as the user would write them;
-    op[1] is the receiver (absolute path of the group the method is called on, "/" = container)."""
+    """One container-level operation.  Path arguments are strings as the user would write them
+    (relative to the receiver, or absolute); op[1] is the receiver: the absolute path of the group
+    the method is called on ("/" = the container object itself)."""
     from metador_core.plugins import schemas
     k = op[0]
-    if k == "attach":
-        node = mc[op[1]]
-        node.meta[op[2]] = schemas.get(op[2])(**OBJECTS[op[2]][op[3]])
-        return
-    if k == "detach":
-        node = mc[op[1]]
-        del node.meta[op[2]]
-        return
+    if k in ("attach", "detach") and len(op) == (4 if k == "attach" else 3):
+        op = [k, "/", op[1]] + list(op[2:])          # older form: absolute node path, no receiver
     g = mc if op[1] == "/" else mc[op[1]]
-    if k == "mkgrp":
+    if k == "attach":
+        node = g if op[2] == "" else g[op[2]]
+        node.meta[op[3]] = schemas.get(op[3])(**OBJECTS[op[3]][op[4]])
+    elif k == "detach":
+        node = g if op[2] == "" else g[op[2]]
+        del node.meta[op[3]]
+    elif k == "mkgrp":
         g.create_group(op[2])
     elif k == "reqgrp":
         g.require_group(op[2])
@@ -136,17 +137,19 @@ def apply_container(mc, op):
     elif k == "move":
         g.move(op[2], op[3])
     elif k == "copy":
-        g.copy(op[2], op[3], without_meta=bool(op[4]), without_attrs=bool(op[5]))
+        src = g[op[2]] if (len(op) > 6 and op[6]) else op[2]      # op[6]: pass the source as node object
+        g.copy(src, op[3], without_meta=bool(op[4]), without_attrs=bool(op[5]))
     elif k == "copyinto":
-        dg = mc[op[3]]
+        dg = mc[op[3]] if op[3].startswith("/") else g[op[3]]
         if _is_ds(dg):
             raise TypeError("destination is not a group")
         kw = {"name": op[4]} if op[4] else {}
-        g.copy(op[2], dg, without_meta=bool(op[5]), **kw)
+        src = g[op[2]] if (len(op) > 6 and op[6]) else op[2]
+        g.copy(src, dg, without_meta=bool(op[5]), **kw)
     elif k == "aset":
-        g[op[2]].attrs[op[3]] = dec(op[4])
+        (g if op[2] == "" else g[op[2]]).attrs[op[3]] = dec(op[4])
     elif k == "adel":
-        del g[op[2]].attrs[op[3]]
+        del (g if op[2] == "" else g[op[2]]).attrs[op[3]]
     else:
         raise ValueError(k)
 
@@ -191,7 +194,16 @@ def observe_container(mc) -> Dict[str, Any]:
     for gname in groups:
         g = mc if gname == "/" else mc[gname]
         ks = list(g.keys())
-        listings[gname] = [ks, len(g), sorted(k for k in ks if k in g)]
+        # reads through the group as receiver: names reported by visit / visititems are relative
+        # to it; every one of them (multi-segment relative paths) must be found by `in`, get and []
+        vis: List[str] = []
+        g.visit(lambda n: vis.append(n) or None)
+        vi: List[list] = []
+        g.visititems(lambda n, o: vi.append([n, o.name, "D" if _is_ds(o) else "G"]) or None)
+        rel = [[n, n in g, getattr(g.get(n), "name", None), g[n].name] for n in vis]
+        absl = [[n, ("/" + n.strip("/")) in g] for n in list(view)[:4]]
+        listings[gname] = [ks, len(g), sorted(k for k in ks if k in g), vis, vi, rel, absl,
+                           sorted(v.name for v in g.values()), sorted([k, v.name] for k, v in g.items())]
     toc = sorted(str(r) for r in mc.metador.schemas.keys())
     # lookups that find nothing: missing names, paths leading through a dataset
     probes = {}
@@ -383,9 +395,10 @@ class Mirror:
 
 
 def _spell(rng, cwd: List[str], target: List[str]) -> str:
-    """Path string denoting `target` from group `cwd`: relative when possible, else absolute
-    (canonical spelling: no '.', no empty segments -- outside the documented key alphabet)."""
-    if target[:len(cwd)] == cwd and len(target) > len(cwd) and (cwd == [] and rng.random() < 0.7 or cwd and rng.random() < 0.8):
+    """Path string denoting `target` for a call on the group `cwd`: relative (also multi-segment)
+    when the target lies below the receiver, else absolute; canonical spelling (no '.', no '..',
+    no empty segments -- outside the documented key alphabet)."""
+    if target[:len(cwd)] == cwd and len(target) > len(cwd) and rng.random() < 0.85:
         return "/".join(target[len(cwd):])
     return absname(target)
 
@@ -398,7 +411,7 @@ def _mirror_apply(mir: "Mirror", op):
     if k in ("attach", "detach"):
         t = tuple(s for s in op[1].split("/") if s)
         (mir.meta.add if k == "attach" else mir.meta.discard)((t, op[2]))
-        return
+        return                                  # (prefixes use the older absolute form)
     cwd = [s for s in op[1].split("/") if s]
 
     def res(p):
@@ -426,18 +439,37 @@ def gen_container_history(rng, nops: int, keys: List[str], p_bnd: float, feature
             ops.append(["bnd"] if rng.random() < 0.7 else ["reopen"])
             continue
         groups = mir.groups()
-        cwd = list(rng.choice(groups)) if rng.random() < 0.35 else []
+        # the receiver ("cwd"): the container object or an existing group of depth 1..3
+        nonroot = [g for g in groups if 1 <= len(g) <= 3]
+        cwd = list(rng.choice(nonroot)) if nonroot and rng.random() < 0.55 else []
         cwds = absname(cwd)
         existing = [list(p) for p in mir.nodes if p]
+        below = [p for p in existing if p[:len(cwd)] == cwd and len(p) > len(cwd)]
 
         def fresh():
-            base = list(rng.choice(groups))
-            return base + [rng.choice(keys) for _ in range(1 if rng.random() < 0.7 else 2)]
+            # mostly below the receiver (relative spelling possible), one or two new segments,
+            # possibly under an existing sub-group of the receiver
+            if cwd and rng.random() < 0.8:
+                subs = [list(g) for g in groups if list(g[:len(cwd)]) == cwd]
+                base = list(rng.choice(subs)) if subs and rng.random() < 0.4 else list(cwd)
+            else:
+                base = list(rng.choice(groups))
+            return base + [rng.choice(keys) for _ in range(1 if rng.random() < 0.65 else 2)]
 
         def some_existing():
+            if below and rng.random() < 0.7:
+                return list(rng.choice(below))
             return rng.choice(existing) if existing and rng.random() < 0.9 else fresh()
 
+        def node_spell(t):
+            """Spelling of a node that may be the receiver itself ("" = the receiver)."""
+            return "" if t == cwd else _spell(rng, cwd, t)
+
         r = rng.random()
+        if len(existing) < 2 or (not nonroot and rng.random() < 0.5):
+            r *= 0.26                              # nothing there yet: create first
+            if not nonroot:
+                r *= 0.5                           # ... groups, to have receivers
         op: Optional[list] = None
         if r < 0.10:
             t = fresh()
@@ -460,24 +492,27 @@ def gen_container_history(rng, nops: int, keys: List[str], p_bnd: float, feature
             mir.mk(t, "D")
         elif r < 0.38:
             t = some_existing()
+            if t == cwd:
+                continue
             op = ["del", cwds, _spell(rng, cwd, t)]
             mir.rm(t)
-        elif r < 0.46:
+        elif r < 0.47:
             s, d = some_existing(), fresh()
-            if d[:len(s)] == s:
-                continue                      # into the own subtree: excluded by the property
+            if d[:len(s)] == s or s == cwd or cwd[:len(s)] == s:
+                continue                      # into the own subtree / the receiver itself: excluded
             op = ["move", cwds, _spell(rng, cwd, s), _spell(rng, cwd, d)]
             mir.cp(s, d, move=True)
-        elif r < 0.55:
+        elif r < 0.57:
             s, d = some_existing(), fresh()
             if d[:len(s)] == s:
                 continue
             wm, wa = rng.random() < 0.35, rng.random() < 0.2
-            if cwd and d[:len(cwd)] != cwd:
-                cwd, cwds = [], "/"           # absolute destinations only from the root (h5py quirk, see c08)
-            op = ["copy", cwds, _spell(rng, cwd, s), _spell(rng, cwd, d), wm, wa]
+            # (plain h5py/HDF5 looks up an ABSOLUTE copy destination relative to the calling group:
+            # g.copy("x", "/a/b") fails when g has a dataset "a"; the container wrapper issues
+            # absolute destinations on the root group, so both spellings are legitimate here)
+            op = ["copy", cwds, _spell(rng, cwd, s), _spell(rng, cwd, d), wm, wa, rng.random() < 0.25]
             mir.cp(s, d, with_meta=not wm)
-        elif r < 0.61:
+        elif r < 0.63:
             s = some_existing()
             cands = groups if features.get("copy_into_root", True) else [g for g in groups if g]
             if not cands:
@@ -488,26 +523,27 @@ def gen_container_history(rng, nops: int, keys: List[str], p_bnd: float, feature
             if d[:len(s)] == s:
                 continue
             wm = rng.random() < 0.35
-            op = ["copyinto", "/", absname(s), absname(dg), name, wm]
+            dgs = absname(dg) if (dg == cwd or dg[:len(cwd)] != cwd or rng.random() < 0.5) else "/".join(dg[len(cwd):])
+            op = ["copyinto", cwds, _spell(rng, cwd, s), dgs, name, wm, rng.random() < 0.4]
             mir.cp(s, d, with_meta=not wm)
-        elif r < 0.69:
-            t = some_existing() if rng.random() < 0.85 else []
+        elif r < 0.70:
+            t = some_existing() if rng.random() < 0.85 else list(cwd)
             k = rng.choice(ATTR_KEYS)
-            op = ["aset", "/", absname(t), k, val()]
+            op = ["aset", cwds, node_spell(t), k, val()]
             if tuple(t) in mir.nodes:
                 mir.attrs.add((tuple(t), k))
-        elif r < 0.73:
+        elif r < 0.74:
             have = sorted(mir.attrs)
             if have and rng.random() < 0.8:
                 t, k = rng.choice(have)
                 mir.attrs.discard((t, k))
             else:
                 t, k = tuple(some_existing()), rng.choice(ATTR_KEYS)
-            op = ["adel", "/", absname(list(t)), k]
+            op = ["adel", cwds, node_spell(list(t)), k]
         elif r < 0.90:
-            t = some_existing() if rng.random() < 0.9 else []
+            t = some_existing() if rng.random() < 0.85 else list(cwd)
             sc = rng.choice(SCHEMA_NAMES)
-            op = ["attach", absname(t), sc, rng.randrange(len(OBJECTS[sc]))]
+            op = ["attach", cwds, node_spell(t), sc, rng.randrange(len(OBJECTS[sc]))]
             if tuple(t) in mir.nodes:
                 mir.meta.add((tuple(t), sc))
         else:
@@ -517,7 +553,7 @@ def gen_container_history(rng, nops: int, keys: List[str], p_bnd: float, feature
                 mir.meta.discard((t, sc))
             else:
                 t, sc = tuple(some_existing()), rng.choice(SCHEMA_NAMES)
-            op = ["detach", absname(list(t)), sc]
+            op = ["detach", cwds, node_spell(list(t)), sc]
         ops.append(op)
     return ops
 
@@ -598,11 +634,54 @@ def _node_obs(node) -> list:
 
 def do_request(root, it) -> list:
     """One request of the client language of run_c09 on a real file object; answer in the
-    wire format of Client.of_obs.  Exceptions of reads are answers too (["exc", class])."""
+    wire format of Client.of_obs.  Exceptions of reads are answers too (["exc", kind]).
+
+    ["at", cwd, request, mode]: the request (its paths are full paths, as the model sees them)
+    is issued on the group at `cwd` as receiver; paths below the receiver are spelled relative
+    to it (mode "rel", also multi-segment), everything else -- and everything in mode "abs" --
+    absolute; mode "obj" passes the source of a copy as node object.  If the receiver does not
+    exist (any more) or is a dataset, the call is made on the root."""
+    recv, cwd, mode = root, [], "rel"
+    if it[0] == "at":
+        cwd, mode = list(it[1]), it[3]
+        it = it[2]
+        g = None
+        try:
+            g = root.get(_ps(cwd)) if cwd else root
+        except Exception:  # noqa: BLE001
+            g = None
+        if g is None or _is_ds(g):
+            cwd, g = [], root
+        recv = g
+
+    def sp(path) -> str:
+        path = list(path)
+        if mode != "abs" and path[:len(cwd)] == cwd and len(path) > len(cwd):
+            return "/".join(path[len(cwd):])
+        if not cwd and mode != "abs":
+            return _ps(path)
+        return "/" + "/".join(path)
+
+    def node_at(path):
+        return recv if list(path) == cwd else recv.get(sp(path))
+
     k = it[0]
     if k in ("grp", "set", "del", "aset", "adel", "copy", "move"):
         try:
-            ih5lib.apply_op(root, it)
+            if k == "grp":
+                recv.create_group(sp(it[1]))
+            elif k == "set":
+                recv[sp(it[1])] = dec(it[2])
+            elif k == "del":
+                del recv[sp(it[1])]
+            elif k == "aset":
+                (recv if list(it[1]) == cwd else recv[sp(it[1])]).attrs[it[2]] = dec(it[3])
+            elif k == "adel":
+                del (recv if list(it[1]) == cwd else recv[sp(it[1])]).attrs[it[2]]
+            elif k == "copy":
+                recv.copy(recv[sp(it[1])] if mode == "obj" else sp(it[1]), sp(it[2]))
+            else:
+                recv.move(sp(it[1]), sp(it[2]))
             return ["w", "T"]
         except vlib.CaseTimeout:
             raise
@@ -610,10 +689,10 @@ def do_request(root, it) -> list:
             return ["w", "F"]
     try:
         if k == "get":
-            return ["e", _node_obs(root.get(_ps(it[1])))]
+            return ["e", _node_obs(recv.get(sp(it[1])))]
         if k == "has":
-            return ["b", "T" if (_ps(it[1]) in root) else "F"]
-        node = root.get(_ps(it[1])) if it[1] else root
+            return ["b", "T" if (sp(it[1]) in recv) else "F"]
+        node = node_at(it[1])
         if k == "keys":
             return ["n", [] if node is None or _is_ds(node) else [list(node.keys())]]
         if k == "akeys":
@@ -622,7 +701,8 @@ def do_request(root, it) -> list:
             if node is None or _is_ds(node):
                 return ["v", []]
             acc: list = []
-            node.visititems(lambda n, o: acc.append([it[1] + n.strip("/").split("/")] + _node_obs(o)[0]) or None)
+            # the reported names are relative to the visited group
+            node.visititems(lambda n, o: acc.append([list(it[1]) + n.strip("/").split("/")] + _node_obs(o)[0]) or None)
             return ["v", [acc]]
         if k == "val":
             return ["x", [] if node is None or not _is_ds(node) else [enc(node[()])]]
@@ -704,15 +784,30 @@ def lockstep_protocol(items) -> Dict[str, Any]:
     return out
 
 
+def _unwrap(it):
+    """The request as the model sees it: full paths, no receiver."""
+    if it[0] == "at":
+        return it[2]
+    if it[0] == "cond":
+        return ["cond", _unwrap(it[1]), _unwrap(it[2])]
+    return it
+
+
+def op_kind(it) -> str:
+    it = _unwrap(it) if it else ["?"]
+    return it[0]
+
+
 def model_items(items) -> list:
-    """Case for run_c09: reopen is a boundary for the model; consecutive boundaries collapse."""
+    """Case for run_c09: reopen is a boundary for the model; consecutive boundaries collapse;
+    the receiver of a request is resolved here (request path = receiver path ++ relative path)."""
     out = []
     for it in items:
         if it[0] in ("bnd", "reopen"):
             if not out or out[-1] != ["bnd"]:
                 out.append(["bnd"])
         else:
-            out.append(it)
+            out.append(_unwrap(it))
     return out
 
 
@@ -750,6 +845,27 @@ def gen_protocol_history(rng, nops: int, keys: List[str], attr_keys: List[str], 
             p = sh.fresh_path(rng, keys=keys)
         return [kind, p]
 
+    def at(req):
+        """Choose the receiver: the root, or an existing group of depth 1..3 -- preferably one
+        the request's (destination) path lies below, so that it is spelled relative."""
+        if rng.random() < 0.45:
+            return req
+        grps = [list(g) for g in sh.groups() if 1 <= len(g) <= 3]
+        if not grps:
+            return req
+        main = req[2] if req[0] in ("copy", "move") and rng.random() < 0.7 else req[1]
+        above = [g for g in grps if list(main[:len(g)]) == g and len(main) > len(g)]
+        cwd = rng.choice(above) if above and rng.random() < 0.8 else rng.choice(grps)
+        mode = rng.choices(["rel", "abs", "obj"], [70, 18, 12])[0]
+        if req[0] == "copy":
+            # plain h5py/HDF5 looks up an absolute copy destination relative to the calling group
+            # (quirk of the reference): from a group receiver the destination must be relative
+            dabove = [g for g in grps if list(req[2][:len(g)]) == g and len(req[2]) > len(g)]
+            if not dabove:
+                return req
+            cwd, mode = rng.choice(dabove), rng.choice(["rel", "rel", "obj"])
+        return ["at", cwd, req, mode]
+
     for op in base:
         if op[0] == "bnd":
             if items and items[-1][0] in ("bnd", "reopen"):
@@ -759,13 +875,13 @@ def gen_protocol_history(rng, nops: int, keys: List[str], attr_keys: List[str], 
         if rng.random() < 0.12:
             # adaptive: the request depends on the previous answer
             alt = a_read() if rng.random() < 0.5 else ["set", sh.fresh_path(rng, keys=keys), rng.choice(VALUES)]
-            items.append(["cond", op, alt])
+            items.append(["cond", at(op), at(alt)])
             # the shadow does not know which branch runs: it only biases the generator
         else:
-            items.append(op)
+            items.append(at(op))
         sh.apply(op)
         while rng.random() < p_read:
-            items.append(a_read())
+            items.append(at(a_read()))
     return items
 
 
@@ -785,7 +901,7 @@ def w_protocol(items):
 def _same(d, target) -> bool:
     if d is None or d["aspect"] != target["aspect"]:
         return False
-    return d["aspect"] in ("read-refused", "probes") or (d["op"] or [None])[0] == (target["op"] or [None])[0]
+    return d["aspect"] in ("read-refused", "probes") or op_kind(d["op"]) == op_kind(target["op"])
 
 
 def _find_same(level, ops, target) -> Optional[Dict[str, Any]]:
@@ -793,8 +909,7 @@ def _find_same(level, ops, target) -> Optional[Dict[str, Any]]:
 
 
 def canon_sig(level: str, d) -> Dict[str, Any]:
-    op = d["op"] or ["?"]
-    kind = op[0]
+    kind = op_kind(d["op"])
     if d["aspect"] in ("read-refused", "probes"):
         kind = "read"          # one cause whatever the request: the lookup raises
     return {"level": level, "aspect": d["aspect"], "op": kind}
@@ -864,7 +979,7 @@ def run(ctx: vlib.Ctx):
         chists.append(gen_container_history(rng, len(prefix) + rng.randint(4 if prefix else 6, ctx.budget(12 if prefix else 16, 22)), keys,
                                             rng.choice([0.0, 0.12, 0.2, 0.3]), {}, prefix=prefix))
     cres = vlib.pmap(w_container, chists)
-    csteps = cnontrivial = 0
+    csteps = cnontrivial = crecv = 0
     ckinds: Dict[str, int] = {}
     for h, r in zip(chists, cres):
         if r.get("error"):
@@ -874,6 +989,8 @@ def run(ctx: vlib.Ctx):
         cnontrivial += r["nontrivial"]
         for op in h[:len(r["classes"])]:
             ckinds[op[0]] = ckinds.get(op[0], 0) + 1
+            if len(op) > 1 and op[1] != "/" and op[0] not in ("reopen",):
+                crecv += 1
         for d in (r["diff"], r.get("probe_diff")):
             if d:
                 hits.append({"level": "container", "ops": h, **d})
@@ -891,6 +1008,7 @@ def run(ctx: vlib.Ctx):
     mres = vlib.run_model("c09", mcases)
     preq = 0
     pkinds: Dict[str, int] = {}
+    precv: Dict[str, int] = {}
     validated = 0
     for h, r, m in zip(phists, pres, mres):
         if r.get("error"):
@@ -901,8 +1019,11 @@ def run(ctx: vlib.Ctx):
             disagreements.append({"kind": "model-internal", "ops": h,
                                   "what": "trace_m and trace_t differ inside the model (C09_driver_equiv contradicted)"})
         for it in h:
-            kk = it[0]
+            kk = op_kind(it)
             pkinds[kk] = pkinds.get(kk, 0) + 1
+            for x in ([it] if it[0] != "cond" else it[1:]):
+                if x[0] == "at":
+                    precv[x[3]] = precv.get(x[3], 0) + 1
         preq += len(r["traces"]["h5"])
         if r["diff"]:
             hits.append({"level": "protocol", "ops": h, **r["diff"]})
@@ -941,15 +1062,19 @@ def run(ctx: vlib.Ctx):
     cov["evaluations"] = csteps * len(DRIVERS) + preq * len(DRIVERS)
     cov["distinct_nontrivial"] = cnontrivial + validated
     cov["rule"] = ("(A) container histories: fixed patterns + random histories from a mirror-tree-biased generator over a "
-                   "per-history alphabet of 3-6 keys (printable ASCII without '@' and '/'), operations on the container and on "
-                   "sub-groups with relative/absolute paths, boundaries and reopen points at random positions, executed in "
+                   "per-history alphabet of 3-6 keys (printable ASCII without '@' and '/'), every operation issued on the container "
+                   "or (about half) on an existing group of depth 1-3 as receiver with relative (also multi-segment), absolute "
+                   "and node-object arguments; listings/visit/in/get/[] through every group as receiver, boundaries and reopen points at random positions, executed in "
                    "lock-step on h5py.File / IH5Record / IH5MFRecord through MetadorContainer; counted: successful operations "
                    "after the first boundary; (B) protocol histories with interleaved reads (existing, missing, below-dataset "
-                   "paths) and conditional requests, three drivers + model trace; counted: histories whose three traces equal "
+                   "paths) and conditional requests, each request on the root or on a group receiver (relative / absolute / "
+                   "node-object spelling; the model gets receiver ++ relative path), three drivers + model trace; counted: histories whose three traces equal "
                    "the model's")
     cov["input_distribution"] = {
         "container_histories": len(chists), "container_steps": csteps, "container_op_kinds": ckinds,
         "container_successful_ops_after_a_boundary": cnontrivial,
+        "container_ops_on_a_non_root_receiver": crecv,
+        "protocol_requests_on_a_non_root_receiver_by_mode": precv,
         "protocol_histories": len(phists), "protocol_requests": preq, "protocol_item_kinds": pkinds,
         "protocol_traces_equal_to_model": validated,
     }
